@@ -1,0 +1,512 @@
+//! Verification hooks, compiled only with `--cfg eigerco_lumina_verif`.
+//!
+//! Thin public wrappers around crate-private items so that an external monitoring
+//! harness can drive and observe them. No wrapper contains any logic of its own:
+//! every function forwards to the wrapped item unchanged.
+
+#![allow(missing_docs, clippy::all, dead_code)]
+
+use std::sync::Arc;
+use std::time::Duration;
+
+use blockstore::Blockstore;
+use celestia_proto::p2p::pb::HeaderRequest;
+use celestia_types::ExtendedHeader;
+use cid::Cid;
+use libp2p::PeerId;
+use libp2p::swarm::ConnectionId;
+use tokio::sync::{broadcast, mpsc, oneshot, watch};
+
+use crate::block_ranges::{BlockRange, BlockRangeExt, BlockRanges};
+use crate::daser::{Daser, DaserArgs, DaserCmd};
+use crate::events::{EventChannel, EventPublisher, EventSubscriber, NodeEvent};
+use crate::node::subscriptions::BroadcastingStore;
+use crate::p2p::{P2p, P2pCmd, P2pError};
+use crate::peer_tracker::{PeerTracker, PeerTrackerInfo};
+use crate::pruner::{Pruner, PrunerArgs};
+use crate::store::{Store, StoreError};
+use crate::syncer::{Syncer, SyncerArgs, SyncingInfo};
+
+pub use crate::p2p::verif_hooks::{header_ex, shrex, shwap};
+
+/// Crate-private `BlockRanges` / `BlockRange` operations.
+pub mod ranges {
+    use super::*;
+
+    pub fn headn(r: &BlockRanges, limit: u64) -> BlockRanges {
+        r.headn(limit)
+    }
+    pub fn tailn(r: &BlockRanges, limit: u64) -> BlockRanges {
+        r.tailn(limit)
+    }
+    pub fn edges(r: &BlockRanges) -> BlockRanges {
+        r.edges()
+    }
+    pub fn partitions(r: &BlockRanges) -> Option<(BlockRanges, u64, BlockRanges)> {
+        r.partitions()
+    }
+    pub fn left_of(r: &BlockRanges, height: u64) -> Option<u64> {
+        r.left_of(height)
+    }
+    pub fn right_of(r: &BlockRanges, height: u64) -> Option<u64> {
+        r.right_of(height)
+    }
+    pub fn range_headn(r: &BlockRange, limit: u64) -> BlockRange {
+        r.headn(limit)
+    }
+    pub fn range_tailn(r: &BlockRange, limit: u64) -> BlockRange {
+        r.tailn(limit)
+    }
+    pub fn range_len(r: &BlockRange) -> u64 {
+        r.len()
+    }
+    pub fn range_is_valid(r: &BlockRange) -> bool {
+        r.validate().is_ok()
+    }
+    pub fn range_is_adjacent(a: &BlockRange, b: &BlockRange) -> bool {
+        a.is_adjacent(b)
+    }
+    pub fn range_is_overlapping(a: &BlockRange, b: &BlockRange) -> bool {
+        a.is_overlapping(b)
+    }
+}
+
+pub fn calculate_range_to_fetch(
+    subjective_head_height: u64,
+    synced_headers: &[BlockRange],
+    limit: u64,
+) -> BlockRange {
+    crate::syncer::verif_calculate_range_to_fetch(subjective_head_height, synced_headers, limit)
+}
+
+pub use crate::pruner::verif_find_height_after_window as find_height_after_window;
+
+/// Event channel.
+pub struct VEventChannel(EventChannel);
+
+impl VEventChannel {
+    pub fn new() -> Self {
+        VEventChannel(EventChannel::new())
+    }
+    pub fn subscribe(&self) -> EventSubscriber {
+        self.0.subscribe()
+    }
+    pub fn publish(&self, event: NodeEvent) {
+        self.0.publisher().send(event)
+    }
+    pub(crate) fn publisher(&self) -> EventPublisher {
+        self.0.publisher()
+    }
+}
+
+pub type VResponder<T> = oneshot::Sender<Result<T, P2pError>>;
+
+/// Public mirror of the commands the mocked `P2p` receives.
+#[derive(Debug)]
+pub enum VP2pCmd {
+    HeaderExRequest {
+        request: HeaderRequest,
+        respond_to: VResponder<Vec<ExtendedHeader>>,
+    },
+    InitHeaderSub {
+        head: Box<ExtendedHeader>,
+        channel: mpsc::Sender<ExtendedHeader>,
+    },
+    GetShwapCid {
+        cid: Cid,
+        respond_to: VResponder<Vec<u8>>,
+    },
+    GetNetworkHead {
+        respond_to: oneshot::Sender<Option<ExtendedHeader>>,
+    },
+    Other(String),
+}
+
+fn mirror_cmd(cmd: P2pCmd) -> VP2pCmd {
+    match cmd {
+        P2pCmd::HeaderExRequest {
+            request,
+            respond_to,
+        } => VP2pCmd::HeaderExRequest {
+            request,
+            respond_to,
+        },
+        P2pCmd::InitHeaderSub { head, channel } => VP2pCmd::InitHeaderSub { head, channel },
+        P2pCmd::GetShwapCid { cid, respond_to } => VP2pCmd::GetShwapCid { cid, respond_to },
+        P2pCmd::GetNetworkHead { respond_to } => VP2pCmd::GetNetworkHead { respond_to },
+        other => VP2pCmd::Other(format!("{other:?}")),
+    }
+}
+
+/// Mocked `P2p` component.
+#[derive(Clone)]
+pub struct VP2p(Arc<P2p>);
+
+/// The network side of a mocked `P2p`.
+pub struct VP2pHandle {
+    cmd_rx: mpsc::Receiver<P2pCmd>,
+    peer_tracker_tx: watch::Sender<PeerTrackerInfo>,
+}
+
+impl VP2p {
+    pub fn mocked() -> (VP2p, VP2pHandle) {
+        let (p2p, cmd_rx, peer_tracker_tx) = P2p::verif_mocked();
+        (
+            VP2p(Arc::new(p2p)),
+            VP2pHandle {
+                cmd_rx,
+                peer_tracker_tx,
+            },
+        )
+    }
+
+    pub async fn get_verified_headers_range(
+        &self,
+        from: &ExtendedHeader,
+        amount: u64,
+    ) -> Result<Vec<ExtendedHeader>, P2pError> {
+        self.0.get_verified_headers_range(from, amount).await
+    }
+
+    pub async fn get_unverified_header_range(
+        &self,
+        range: BlockRange,
+    ) -> Result<Vec<ExtendedHeader>, P2pError> {
+        self.0.get_unverified_header_range(range).await
+    }
+
+    pub async fn header_ex_request(
+        &self,
+        request: HeaderRequest,
+    ) -> Result<Vec<ExtendedHeader>, P2pError> {
+        self.0.header_ex_request(request).await
+    }
+
+    pub async fn get_shwap_cid(
+        &self,
+        cid: Cid,
+        timeout: Option<Duration>,
+    ) -> Result<Vec<u8>, P2pError> {
+        self.0.get_shwap_cid(cid, timeout).await
+    }
+}
+
+impl VP2pHandle {
+    pub async fn recv_cmd(&mut self) -> Option<VP2pCmd> {
+        self.cmd_rx.recv().await.map(mirror_cmd)
+    }
+
+    pub fn try_recv_cmd(&mut self) -> Option<VP2pCmd> {
+        self.cmd_rx.try_recv().ok().map(mirror_cmd)
+    }
+
+    pub fn set_peer_tracker_info(&self, info: PeerTrackerInfo) {
+        self.peer_tracker_tx.send_replace(info);
+    }
+}
+
+/// Real `Syncer` worker.
+pub struct VSyncer<S: Store + 'static>(Syncer<S>);
+
+impl<S: Store + 'static> VSyncer<S> {
+    pub fn start(
+        p2p: &VP2p,
+        store: Arc<S>,
+        events: &VEventChannel,
+        batch_size: u64,
+        sampling_window: Duration,
+        pruning_window: Duration,
+    ) -> Result<Self, String> {
+        Syncer::start(SyncerArgs {
+            p2p: p2p.0.clone(),
+            store,
+            event_pub: events.publisher(),
+            batch_size,
+            sampling_window,
+            pruning_window,
+        })
+        .map(VSyncer)
+        .map_err(|e| e.to_string())
+    }
+    pub fn stop(&self) {
+        self.0.stop()
+    }
+    pub async fn join(&self) {
+        self.0.join().await
+    }
+    pub async fn info(&self) -> Result<SyncingInfo, String> {
+        self.0.info().await.map_err(|e| e.to_string())
+    }
+    pub async fn subscribe_headers(&self) -> Result<broadcast::Receiver<ExtendedHeader>, String> {
+        self.0.subscribe_headers().await.map_err(|e| e.to_string())
+    }
+}
+
+/// Public mirror of the commands the mocked `Daser` receives.
+#[derive(Debug)]
+pub enum VDaserCmd {
+    UpdateHighestPrunableHeight { value: u64 },
+    UpdateNumberOfPrunableBlocks { value: u64 },
+    WantToPrune { height: u64, respond_to: oneshot::Sender<bool> },
+}
+
+fn mirror_daser_cmd(cmd: DaserCmd) -> VDaserCmd {
+    match cmd {
+        DaserCmd::UpdateHighestPrunableHeight { value } => {
+            VDaserCmd::UpdateHighestPrunableHeight { value }
+        }
+        DaserCmd::UpdateNumberOfPrunableBlocks { value } => {
+            VDaserCmd::UpdateNumberOfPrunableBlocks { value }
+        }
+        DaserCmd::WantToPrune { height, respond_to } => {
+            VDaserCmd::WantToPrune { height, respond_to }
+        }
+    }
+}
+
+/// `Daser` component: real worker or mock.
+#[derive(Clone)]
+pub struct VDaser(Arc<Daser>);
+
+pub struct VDaserHandle {
+    cmd_rx: mpsc::Receiver<DaserCmd>,
+}
+
+impl VDaserHandle {
+    pub async fn recv_cmd(&mut self) -> Option<VDaserCmd> {
+        self.cmd_rx.recv().await.map(mirror_daser_cmd)
+    }
+    pub fn try_recv_cmd(&mut self) -> Option<VDaserCmd> {
+        self.cmd_rx.try_recv().ok().map(mirror_daser_cmd)
+    }
+}
+
+impl VDaser {
+    pub fn start<S: Store + 'static>(
+        p2p: &VP2p,
+        store: Arc<S>,
+        events: &VEventChannel,
+        sampling_window: Duration,
+        concurrency_limit: usize,
+        additional_headersub_concurrency: usize,
+    ) -> Result<Self, String> {
+        Daser::start(DaserArgs {
+            p2p: p2p.0.clone(),
+            store,
+            event_pub: events.publisher(),
+            sampling_window,
+            concurrency_limit,
+            additional_headersub_concurrency,
+        })
+        .map(|d| VDaser(Arc::new(d)))
+        .map_err(|e| e.to_string())
+    }
+
+    pub fn mocked() -> (VDaser, VDaserHandle) {
+        let (daser, cmd_rx) = Daser::verif_mocked();
+        (VDaser(Arc::new(daser)), VDaserHandle { cmd_rx })
+    }
+
+    pub fn stop(&self) {
+        self.0.stop()
+    }
+    pub async fn join(&self) {
+        self.0.join().await
+    }
+    pub async fn want_to_prune(&self, height: u64) -> Result<bool, String> {
+        self.0.want_to_prune(height).await.map_err(|e| e.to_string())
+    }
+    pub async fn update_highest_prunable_block(&self, value: u64) -> Result<(), String> {
+        self.0
+            .update_highest_prunable_block(value)
+            .await
+            .map_err(|e| e.to_string())
+    }
+    pub async fn update_number_of_prunable_blocks(&self, value: u64) -> Result<(), String> {
+        self.0
+            .update_number_of_prunable_blocks(value)
+            .await
+            .map_err(|e| e.to_string())
+    }
+}
+
+/// Real `Pruner` worker.
+pub struct VPruner(Pruner);
+
+impl VPruner {
+    pub fn start<S, B>(
+        daser: &VDaser,
+        store: Arc<S>,
+        blockstore: Arc<B>,
+        events: &VEventChannel,
+        block_time: Duration,
+        pruning_window: Duration,
+        sampling_window: Duration,
+    ) -> Self
+    where
+        S: Store + 'static,
+        B: Blockstore + 'static,
+    {
+        VPruner(Pruner::start(PrunerArgs {
+            daser: daser.0.clone(),
+            store,
+            blockstore,
+            event_pub: events.publisher(),
+            block_time,
+            pruning_window,
+            sampling_window,
+        }))
+    }
+    pub fn stop(&self) {
+        self.0.stop()
+    }
+    pub async fn join(&self) {
+        self.0.join().await
+    }
+}
+
+/// `BroadcastingStore` used for header subscriptions.
+pub struct VBroadcastingStore<S: Store>(BroadcastingStore<S>);
+
+impl<S: Store> VBroadcastingStore<S> {
+    pub fn new(store: Arc<S>) -> Self {
+        VBroadcastingStore(BroadcastingStore::new(store))
+    }
+    pub fn init_broadcast(&mut self, head: ExtendedHeader) {
+        self.0.init_broadcast(head)
+    }
+    pub fn subscribe(&self) -> broadcast::Receiver<ExtendedHeader> {
+        self.0.subscribe()
+    }
+    pub async fn announce_insert(&mut self, range: Vec<ExtendedHeader>) -> Result<(), StoreError> {
+        self.0.announce_insert(range).await
+    }
+    pub fn inner(&self) -> Arc<S> {
+        self.0.clone_inner_store()
+    }
+}
+
+/// `PeerTracker`.
+pub struct VPeerTracker(pub(crate) PeerTracker);
+
+#[derive(Debug, Clone, PartialEq, Eq)]
+pub struct VPeerView {
+    pub id: PeerId,
+    pub connected: bool,
+    pub trusted: bool,
+    pub protected: bool,
+    pub archival: bool,
+    pub full: bool,
+}
+
+impl VPeerTracker {
+    pub fn new(events: &VEventChannel) -> Self {
+        VPeerTracker(PeerTracker::new(events.publisher()))
+    }
+    pub fn info(&self) -> PeerTrackerInfo {
+        self.0.info()
+    }
+    pub fn info_watcher(&self) -> watch::Receiver<PeerTrackerInfo> {
+        self.0.info_watcher()
+    }
+    pub fn peers(&self) -> Vec<VPeerView> {
+        self.0
+            .peers()
+            .map(|p| VPeerView {
+                id: *p.id(),
+                connected: p.is_connected(),
+                trusted: p.is_trusted(),
+                protected: p.is_protected(),
+                archival: p.is_archival(),
+                full: p.is_full(),
+            })
+            .collect()
+    }
+    pub fn is_connected(&self, peer: &PeerId) -> bool {
+        self.0.is_connected(peer)
+    }
+    pub fn is_protected(&self, peer: &PeerId) -> bool {
+        self.0.is_protected(peer)
+    }
+    pub fn is_protected_with_tag(&self, peer: &PeerId, tag: u32) -> bool {
+        self.0.is_protected_with_tag(peer, tag)
+    }
+    pub fn add_peer_id(&mut self, peer: &PeerId) -> bool {
+        self.0.add_peer_id(peer)
+    }
+    pub fn set_trusted(&mut self, peer: &PeerId, is_trusted: bool) {
+        self.0.set_trusted(peer, is_trusted)
+    }
+    pub fn protect(&mut self, peer: &PeerId, tag: u32) -> bool {
+        self.0.protect(peer, tag)
+    }
+    pub fn unprotect(&mut self, peer: &PeerId, tag: u32) -> bool {
+        self.0.unprotect(peer, tag)
+    }
+    pub fn protected_len(&self, tag: u32) -> usize {
+        self.0.protected_len(tag)
+    }
+    pub fn add_connection(&mut self, peer: &PeerId, connection: ConnectionId) {
+        self.0.add_connection(peer, connection)
+    }
+    pub fn remove_connection(&mut self, peer: &PeerId, connection: ConnectionId) {
+        self.0.remove_connection(peer, connection)
+    }
+    pub fn on_agent_version(&mut self, peer: &PeerId, agent_version: &str) {
+        self.0.on_agent_version(peer, agent_version)
+    }
+    pub fn mark_as_archival(&mut self, peer: &PeerId) {
+        self.0.mark_as_archival(peer)
+    }
+    pub fn connections(&self) -> Vec<(PeerId, ConnectionId)> {
+        self.0.all_connections().map(|(p, c)| (*p, c)).collect()
+    }
+    pub fn gc(&mut self) {
+        self.0.gc()
+    }
+}
+
+/// `Counter` used by `RedbStore::close`.
+#[cfg(not(target_arch = "wasm32"))]
+pub struct VCounter(crate::utils::Counter);
+
+#[cfg(not(target_arch = "wasm32"))]
+pub struct VCounterGuard(#[allow(dead_code)] Box<dyn Send + Sync>);
+
+#[cfg(not(target_arch = "wasm32"))]
+impl VCounter {
+    pub fn new() -> Self {
+        VCounter(crate::utils::Counter::new())
+    }
+    pub fn guard(&self) -> VCounterGuard {
+        VCounterGuard(Box::new(self.0.guard()))
+    }
+    pub async fn wait_guards(&mut self) {
+        self.0.wait_guards().await
+    }
+}
+
+/// `HeaderSession` running against a caller-provided command channel.
+pub struct VHeaderSession {
+    session: crate::p2p::header_session::HeaderSession,
+}
+
+impl VHeaderSession {
+    /// Returns the session and the receiving side on which its requests arrive.
+    pub fn new(range: BlockRange) -> (Self, VP2pHandle) {
+        let (cmd_tx, cmd_rx) = mpsc::channel(16);
+        let (peer_tracker_tx, _) = watch::channel(PeerTrackerInfo::default());
+        (
+            VHeaderSession {
+                session: crate::p2p::header_session::HeaderSession::new(range, cmd_tx),
+            },
+            VP2pHandle {
+                cmd_rx,
+                peer_tracker_tx,
+            },
+        )
+    }
+    pub async fn run(&mut self) -> Result<Vec<ExtendedHeader>, P2pError> {
+        self.session.run().await
+    }
+}
